@@ -414,6 +414,76 @@ def run(ctx):
 
     fl, acquires, edges, reacq = locks.analyse(st)
 
+    # SFileSetFilePointer: (low, *high) follow the Win32 / StormLib convention — with a NULL high pointer the low part is a *signed*
+    # 32-bit distance; with a high part the pair is one 64-bit value.  Decided by evaluating the composition over both conventions
+    # for every distance a caller can express within +-2^31 (what an in-memory file can hold)
+    R_seek = ctx.rule("C19.seek-distance-composition", "SFileSetFilePointer composes (low, high) into the 64-bit distance d for d in {-2^31, -65536, -30, -1, 0, 1, 30, 65536, 2^31-1}, both with high == NULL (low = d) and with high = d >> 32, low = d & 0xFFFFFFFF", floor=2)
+    sp = next((f_ for f_ in st.fn_list if f_.hir and f_.kind != "Closure" and f_.path.endswith("SFileSetFilePointer")), None)
+    if sp is None:
+        ctx.bad(R_seek, "SFileSetFilePointer|missing", "-", "function not found", "anchor gone")
+    else:
+        from .c10 import _ival, _NoEval
+        ctx.saw_fn(sp)
+        body = sp.hir["body"]
+        init = next((l for l in hirq.find(body, "let") if l["pat"].get("k") == "bind" and l["pat"]["name"] == "offset" and l.get("init") is not None), None)
+        upd_if = next((n for n in hirq.find(body, "if") if "is_null" in hirq.render(n["c"]) and any(u.get("k") == "assignop" and hirq.render(hirq.strip(u["l"])) == "offset" for u in hirq.walk(n["then"]))), None)
+        if init is None or upd_if is None:
+            ctx.bad(R_seek, "SFileSetFilePointer|shape", sp.where, "`let mut offset = ..` / `if !high.is_null() { offset |= .. }` not found", "shape changed")
+        else:
+            negated = hirq.strip(upd_if["c"]).get("k") == "un"
+            lets_ = {l["pat"]["name"]: l["init"] for l in hirq.find(upd_if["then"], "let") if l["pat"].get("k") == "bind" and l.get("init") is not None}
+            ups = [u for u in hirq.walk(upd_if["then"]) if u.get("k") == "assignop" and hirq.render(hirq.strip(u["l"])) == "offset"]
+            tyf = lambda t_: st.ty(t_)
+            try:
+                bad = None
+                for d in (-2 ** 31, -65536, -30, -1, 0, 1, 30, 65536, 2 ** 31 - 1):
+                    for conv in ("null", "pair"):
+                        low = d if conv == "null" else ((d & 0xFFFFFFFF) - (1 << 32) if (d & 0xFFFFFFFF) >= 2 ** 31 else (d & 0xFFFFFFFF))
+                        high = None if conv == "null" else (d >> 32)
+                        env = {"file_pos": low, "__ty__": tyf}
+                        off = _ival(init["init"], env, {})
+                        takes_update = (high is not None) if negated else (high is None)
+                        if takes_update:
+                            for u in ups:
+                                rhs = _ival(u["r"], dict(env, file_pos_high=(high if high is not None else 0), offset=off), lets_)
+                                off = {"|=": off | rhs, "+=": off + rhs, "^=": off ^ rhs}.get(u["op"], off)
+                        if off != d and bad is None:
+                            bad = (d, conv, low, high, off)
+                if bad:
+                    ctx.bad(R_seek, "SFileSetFilePointer|composition|%s" % bad[1], "%s:%d" % (sp.file, init.get("ln") or 0), "distance %d passed as (low=%d, high=%s) is composed into %d" % (bad[0], bad[2], "NULL" if bad[3] is None else bad[3], bad[4]),
+                            "a backward FILE_CURRENT / FILE_END seek turns into a forward one clamped to the end of the file: the next read returns nothing (or other bytes) where the Rust API returns the data at position - k")
+                else:
+                    ctx.ok(R_seek, {"init": hirq.render(init["init"])[:40], "update": [hirq.render(u)[:50] for u in ups], "distances": 9, "conventions": 2})
+                    ctx.ok(R_seek, {"note": "NULL-high convention: low part is signed"})
+            except _NoEval as e:
+                ctx.bad(R_seek, "SFileSetFilePointer|not-evaluable", sp.where, "offset composition not evaluable: %s" % e, "shape changed")
+
+    # memory reached through a table's guard is touched only while that guard is held: a raw pointer (or reference) taken from an
+    # entry and used by a copy after the guard was dropped races with SFileCloseFile / SFileCloseArchive freeing the entry
+    R_live = ctx.rule("C19.table-memory-used-under-its-lock", "every raw copy / read whose source or destination derives from a handle-table guard executes while that guard is live", floor=3)
+    for p_, x_ in fl.items():
+        f_ = x_.fn
+        for bb, t in mirg.iter_calls(f_):
+            cn = ncallee(t) or ""
+            if not re.search(r"(intrinsics|ptr)::(copy_nonoverlapping|copy|read|read_unaligned|write|write_bytes)$|slice::(raw::)?from_raw_parts(_mut)?$|ptr::(const_ptr|mut_ptr)::.*::(copy_to|copy_from|copy_to_nonoverlapping|copy_from_nonoverlapping|read|write)$", cn):
+                continue
+            used = set()
+            for a in t["a"]:
+                al = mirg.op_local(a)
+                if al is None:
+                    continue
+                anc, _c, _i = x_.du.slice_back(al, depth=16)
+                used |= {g for g in anc if g in x_.guard_of}
+            if not used:
+                continue
+            dead = sorted(x_.guard_of[g] for g in used if g not in x_.held_at_term[bb])
+            inst = {"fn": p_.split("::")[-1], "line": t["ln"], "call": cn.split("::")[-1], "guards": sorted({x_.guard_of[g] for g in used})}
+            if dead:
+                ctx.bad(R_live, "%s|%s|after-unlock" % (p_.split("::")[-1], cn.split("::")[-1]), "%s:%d" % (f_.file, t["ln"]), "`%s` uses memory obtained through the %s guard after that guard was dropped" % (cn.split("::")[-1], ", ".join(dead)),
+                        "another thread closing the file or its archive between the unlock and the copy frees the buffer: use after free (SIGSEGV or stale bytes reported as a successful read)")
+            else:
+                ctx.ok(R_live, inst)
+
     # a counter behind a mutex is read and advanced under ONE guard: a function that takes the same counter lock twice
     # has a window between the two in which another thread allocates the same value
     R_atomic = ctx.rule("C19.counter-read-modify-write-is-one-critical-section", "no function locks an integer-counter static (NEXT_HANDLE) more than once", floor=1)
